@@ -14,6 +14,7 @@ import GoaktVerif.Lemmas.C45.Flow
 import GoaktVerif.Lemmas.C45.Sink
 import GoaktVerif.Lemmas.C45.Bridge
 import GoaktVerif.Lemmas.C45.FusedBridge
+import GoaktVerif.Lemmas.C45.HomogSem
 
 namespace GoaktVerif.C45
 open GoaktVerif.Model.C45 GoaktVerif.Spec.C45
@@ -59,22 +60,42 @@ theorem witness_regression :
     ((((mkNet false witnessStages witnessInput).run witnessPicks).sink?.map fun s => (s.received, s.termErr)) =
       some ([.list [1]], none)) := by decide
 
-/-! ### the composition theorem: every schedule of every pipeline of flowActor-backed stages -/
-
-/-- pipelines covered by the composition theorem: Map, TryMap, Filter, FlatMap, Flatten, Scan, Deduplicate,
-    Buffer, list-sum (flowActor-backed) and Batch — the parallel stages are modelled and tied by replay but are
-    not yet inside the composition proof -/
-def flowPipeline (stages : List Stage) : Prop := ∀ st ∈ stages, Stage.covered st = true
+/-! ### the composition theorem: every schedule of every ordered pipeline -/
 
 /-- the middle nodes `mkNet` builds -/
 def midsOf (fusion : Bool) (stages : List Stage) : List Node :=
   if fusion then fuseRuns stages [] else stages.map mkNode
 
+/-- the stages behind each of those nodes -/
+def groupsOf (fusion : Bool) (stages : List Stage) : List (List Stage) :=
+  if fusion then groupRuns stages [] else stages.map fun s => [s]
+
+theorem midsOf_eq (fusion : Bool) (stages : List Stage) :
+    midsOf fusion stages = (groupsOf fusion stages).map nodeOfGroup := by
+  cases fusion with
+  | true => simp [midsOf, groupsOf, fuseRuns_eq]
+  | false => simp [midsOf, groupsOf, List.map_map]; intro a _; rfl
+
+theorem groupsOf_flatten (fusion : Bool) (stages : List Stage) : (groupsOf fusion stages).flatten = stages := by
+  cases fusion with
+  | true => simp [groupsOf, groupRuns_flatten]
+  | false => simp [groupsOf]; induction stages <;> simp_all
+
+theorem groupsOf_good (fusion : Bool) (stages : List Stage) (h : ∀ st ∈ stages, Stage.covered st = true) :
+    ∀ g ∈ groupsOf fusion stages, GoodGroup g := by
+  cases fusion with
+  | true => exact groupRuns_good stages [] h (by simp)
+  | false =>
+    intro g hg
+    simp only [groupsOf, Bool.false_eq_true, if_false, List.mem_map] at hg
+    obtain ⟨a, ha, rfl⟩ := hg
+    exact Or.inl ⟨a, rfl, h a ha⟩
+
 theorem mkNet_eq (fusion : Bool) (stages : List Stage) (input : List Val) :
     mkNet fusion stages input = wireAll (midsOf fusion stages).length.succ.succ (rawNet (midsOf fusion stages) input) := by
   simp [mkNet, mkNodes, rawNet, midsOf]
 
-theorem midsOf_fresh (fusion : Bool) (stages : List Stage) (h : flowPipeline stages) :
+theorem midsOf_fresh (fusion : Bool) (stages : List Stage) (h : ∀ st ∈ stages, Stage.covered st = true) :
     ∀ nd ∈ midsOf fusion stages, FreshMid nd := by
   cases fusion with
   | true => exact freshMid_fuseRuns stages [] h (by simp)
@@ -84,11 +105,40 @@ theorem midsOf_fresh (fusion : Bool) (stages : List Stage) (h : flowPipeline sta
     obtain ⟨st, hst, rfl⟩ := hnd
     exact freshMid_mkNode st (h st hst)
 
+/-- parallel stages -/
+def Stage.isParSt : Stage → Bool
+  | .opmap _ _ _ _ | .pmap _ _ _ _ => true
+  | _ => false
+
+theorem isPar_nodeOfGroup (g : List Stage) (h : isPar (nodeOfGroup g) = true) : ∃ a, g = [a] ∧ Stage.isParSt a = true := by
+  match g with
+  | [] => simp [nodeOfGroup, isPar] at h
+  | [a] =>
+    refine ⟨a, rfl, ?_⟩
+    cases a <;> simp [nodeOfGroup, mkNode, isPar] at h <;> rfl
+  | a :: b :: r => simp [nodeOfGroup, isPar] at h
+
+theorem midsOf_noPar (fusion : Bool) (stages : List Stage) (h : ∀ st ∈ stages, Stage.isParSt st = false) :
+    ∀ nd ∈ midsOf fusion stages, isPar nd = false := by
+  intro nd hnd
+  rw [midsOf_eq] at hnd
+  obtain ⟨g, hg, rfl⟩ := List.mem_map.mp hnd
+  cases hp : isPar (nodeOfGroup g) with
+  | false => rfl
+  | true =>
+    obtain ⟨a, rfl, ha⟩ := isPar_nodeOfGroup g hp
+    have : a ∈ (groupsOf fusion stages).flatten := List.mem_flatten.mpr ⟨[a], hg, by simp⟩
+    rw [groupsOf_flatten] at this
+    rw [h a this] at ha; simp at ha
+
 /-- the network invariant holds in every state of every run -/
-theorem run_inv (fusion : Bool) (stages : List Stage) (input : List Val) (picks : List Pick)
-    (h : flowPipeline stages) : GInv input ((mkNet fusion stages input).run picks) := by
+theorem run_inv (P : List Val → Prop) (fusion : Bool) (stages : List Stage) (input : List Val) (picks : List Pick)
+    (h : ∀ st ∈ stages, Stage.covered st = true)
+    (hpar : (∀ X, P X → Homog X) ∨ ∀ st ∈ stages, Stage.isParSt st = false) :
+    GInv P input ((mkNet fusion stages input).run picks) := by
   have hfresh := midsOf_fresh fusion stages h
-  have hraw := GInv.raw (midsOf fusion stages) input hfresh
+  have hraw := GInv.raw (P := P) (midsOf fusion stages) input hfresh
+    (hpar.imp id fun hp => midsOf_noPar fusion stages hp)
   have hal := rawNet_allAlive (midsOf fusion stages) input hfresh
   have hw := wireAll_inv _ hraw hal (midsOf fusion stages).length.succ.succ (by simp [rawNet])
   rw [mkNet_eq]
@@ -99,82 +149,120 @@ theorem semsOf_wireAll (k : Nat) (net : Net) : semsOf (wireAll k net) = semsOf n
   | zero => rfl
   | succ k ih => simp only [wireAll]; rw [semsOf_deliver, ih]
 
-theorem nodes_length_run (net : Net) (picks : List Pick) : (semsOf (net.run picks)).length = (semsOf net).length := by
-  rw [semsOf_run]
+/-- the semantic functions along the pipeline `mkNet` builds -/
+def FsOf (fusion : Bool) (stages : List Stage) (input : List Val) : List SemFn :=
+  midF (.src { rest := input }) ::
+    (((groupsOf fusion stages).map fun g => midF (nodeOfGroup g)) ++ [midF (.sink defaultCfg {})])
 
-/-- COMPOSITION (any fusion mode), against the semantic functions of the nodes `mkNet` builds:
-    at every moment of every schedule the sink's record is a prefix of the ideal output, the hook runs at
-    most once, normal completion means the whole ideal output with no failing stage, a failure carries a
-    candidate error. -/
-theorem net_correct (fusion : Bool) (stages : List Stage) (input : List Val) (picks : List Pick) (s : SinkSt)
-    (h : flowPipeline stages) (hs : ((mkNet fusion stages input).run picks).sink? = some s) :
-    let Fs := (rawNet (midsOf fusion stages) input).nodes.map midF
-    SinkOK' (idealAt Fs input (midsOf fusion stages).length).1 (idealAt Fs input (midsOf fusion stages).length).2 s := by
-  have hinv := run_inv fusion stages input picks h
-  have hok := hinv.sink_ok s hs
-  have hsem : semsOf ((mkNet fusion stages input).run picks) = (rawNet (midsOf fusion stages) input).nodes.map midF := by
-    rw [semsOf_run, mkNet_eq, semsOf_wireAll]; rfl
-  have hlen : ((mkNet fusion stages input).run picks).nodes.length = (midsOf fusion stages).length + 2 := by
+theorem semsOf_mkNet (fusion : Bool) (stages : List Stage) (input : List Val) (picks : List Pick) :
+    semsOf ((mkNet fusion stages input).run picks) = FsOf fusion stages input := by
+  rw [semsOf_run, mkNet_eq, semsOf_wireAll]
+  simp only [semsOf, rawNet, midsOf_eq, FsOf, List.map_cons, List.map_append, List.map_map, List.map_nil]
+  rfl
+
+/-- COMPOSITION, generic in the class `P` of ideal inputs: for every covered pipeline, both fusion modes, every
+    schedule — against the list semantics `sem`. -/
+theorem C45_gen (P : List Val → Prop) (fusion : Bool) (stages : List Stage) (input : List Val) (picks : List Pick)
+    (s : SinkSt) (h : ∀ st ∈ stages, Stage.covered st = true)
+    (hpar : (∀ X, P X → Homog X) ∨ ∀ st ∈ stages, Stage.isParSt st = false)
+    (hP : ∀ j, P (idealAt (FsOf fusion stages input) input j).1)
+    (hs : ((mkNet fusion stages input).run picks).sink? = some s) : SinkOK stages input s := by
+  have hinv := run_inv P fusion stages input picks h hpar
+  have hsem := semsOf_mkNet fusion stages input picks
+  have hok := hinv.sink_ok (by rw [hsem]; exact hP) s hs
+  have hlen : ((mkNet fusion stages input).run picks).nodes.length = (groupsOf fusion stages).length + 2 := by
     have := congrArg List.length hsem
-    simpa [semsOf, rawNet] using this
+    simpa [semsOf, FsOf] using this
   rw [hsem, hlen] at hok
-  simpa using hok
-
-/-- C45 for every pipeline of flowActor-backed stages run WITHOUT fusion, every input, every schedule:
-    the full property against the list semantics `sem`. -/
-theorem C45_partial (stages : List Stage) (input : List Val) (picks : List Pick) (s : SinkSt)
-    (h : flowPipeline stages) (hs : ((mkNet false stages input).run picks).sink? = some s) :
-    SinkOK stages input s := by
-  have hn := net_correct false stages input picks s h hs
-  have hmids : midsOf false stages = stages.map mkNode := by simp [midsOf]
-  have hFs : (rawNet (midsOf false stages) input).nodes.map midF =
-      midF (.src { rest := input }) :: ((stages.map stageF) ++ [midF (.sink defaultCfg {})]) := by
-    simp only [rawNet, hmids, List.map_cons, List.map_append, List.map_map, List.map_nil]
-    congr 2
-    apply List.map_congr_left
-    intro st hst
-    exact midF_mkNode st (h st hst)
-  have hlen : (midsOf false stages).length = (stages.map stageF).length := by simp [hmids]
-  simp only at hn
-  rw [hFs, hlen, idealAt_eq_semF, semF_eq_sem stages h] at hn
-  exact hn
-
-/-- the same with stage fusion ON (`applyFusion` merges runs of ≥ 2 adjacent Map/TryMap/Filter stages into one
-    fusedFlowActor that composes them element by element): still the list semantics. -/
-theorem C45_partial_fused (stages : List Stage) (input : List Val) (picks : List Pick) (s : SinkSt)
-    (h : flowPipeline stages) (hs : ((mkNet true stages input).run picks).sink? = some s) :
-    SinkOK stages input s := by
-  have hn := net_correct true stages input picks s h hs
-  have hmids : midsOf true stages = (groupRuns stages []).map nodeOfGroup := by
-    simp [midsOf, fuseRuns_eq]
-  have hFs : (rawNet (midsOf true stages) input).nodes.map midF =
-      midF (.src { rest := input }) ::
-        (((groupRuns stages []).map fun g => midF (nodeOfGroup g)) ++ [midF (.sink defaultCfg {})]) := by
-    simp only [rawNet, hmids, List.map_cons, List.map_append, List.map_map, List.map_nil]
-    rfl
-  have hlen : (midsOf true stages).length = ((groupRuns stages []).map fun g => midF (nodeOfGroup g)).length := by
-    simp [hmids]
-  simp only at hn
-  rw [hFs, hlen, idealAt_eq_semF] at hn
-  have hrel := semF_groups (groupRuns stages []) (groupRuns_good stages [] h (by simp)) input
-  rw [groupRuns_flatten] at hrel
-  simp only [List.reverse_nil, List.nil_append] at hrel
+  have hidx : (groupsOf fusion stages).length + 2 - 2 =
+      ((groupsOf fusion stages).map fun g => midF (nodeOfGroup g)).length := by simp
+  rw [hidx] at hok
+  unfold FsOf at hok
+  rw [idealAt_eq_semF] at hok
+  have hrel := semF_groups (groupsOf fusion stages) (groupsOf_good fusion stages h) input
+  rw [groupsOf_flatten] at hrel
   obtain ⟨r1, r2, r3⟩ := hrel
-  obtain ⟨k1, k2, k3, k4, k5⟩ := hn
+  obtain ⟨k1, k2, k3, k4, k5⟩ := hok
   refine ⟨k1, k2, by rw [← r1]; exact k3, fun ha he => ?_, fun e he => r3 e (k5 e he)⟩
   obtain ⟨h1, h2⟩ := k4 ha he
   exact ⟨by rw [← r1]; exact h1, r2.mp h2⟩
 
-/-- C45 for every pipeline without parallel stages, both fusion modes, every input, every schedule -/
+theorem covered_of_ordered (stages : List Stage) (h : orderedPipeline stages = true) :
+    ∀ st ∈ stages, Stage.covered st = true := by
+  intro st hst
+  have := List.all_eq_true.mp h st hst
+  cases st <;> simp_all [Stage.covered]
+
+/-- every link of the ideal pipeline carries elements of one type when the input does -/
+theorem ideals_homog (fusion : Bool) (stages : List Stage) (input : List Val)
+    (h : ∀ st ∈ stages, Stage.covered st = true) (hin : Homog input) :
+    ∀ j, Homog (idealAt (FsOf fusion stages input) input j).1 := by
+  apply idealAt_homog _ _ _ hin
+  intro F hF X hX
+  simp only [FsOf, List.mem_cons, List.mem_append, List.mem_map, List.mem_singleton] at hF
+  rcases hF with rfl | ⟨g, hg, rfl⟩ | rfl | hF
+  · exact hX
+  · exact group_homog g (groupsOf_good fusion stages h g hg) X hX
+  · exact hX
+  · simp at hF
+
+/-- The full property as stated for typed streams: the input elements have one type (the Go API's `Of[T]`);
+    every pipeline without the unordered ParallelMap, both fusion modes, every schedule. -/
+def C45_typed : Prop :=
+  ∀ (fusion : Bool) (stages : List Stage) (input : List Val) (picks : List Pick) (s : SinkSt),
+    orderedPipeline stages = true → Homog input →
+    ((mkNet fusion stages input).run picks).sink? = some s → SinkOK stages input s
+
+theorem C45_holds : C45_typed := by
+  intro fusion stages input picks s ho hin hs
+  have hcov := covered_of_ordered stages ho
+  exact C45_gen Homog fusion stages input picks s hcov (Or.inl fun _ hX => hX)
+    (ideals_homog fusion stages input hcov hin) hs
+
+/-- pipelines without any parallel stage: no assumption on the input at all -/
+def flowPipeline (stages : List Stage) : Prop :=
+  ∀ st ∈ stages, Stage.covered st = true ∧ Stage.isParSt st = false
+
 theorem C45_partial_all (fusion : Bool) (stages : List Stage) (input : List Val) (picks : List Pick) (s : SinkSt)
     (h : flowPipeline stages) (hs : ((mkNet fusion stages input).run picks).sink? = some s) :
-    SinkOK stages input s := by
-  cases fusion with
-  | false => exact C45_partial stages input picks s h hs
-  | true => exact C45_partial_fused stages input picks s h hs
+    SinkOK stages input s :=
+  C45_gen (fun _ => True) fusion stages input picks s (fun st hst => (h st hst).1)
+    (Or.inr fun st hst => (h st hst).2) (fun _ => trivial) hs
+
+theorem C45_partial (stages : List Stage) (input : List Val) (picks : List Pick) (s : SinkSt)
+    (h : flowPipeline stages) (hs : ((mkNet false stages input).run picks).sink? = some s) :
+    SinkOK stages input s := C45_partial_all false stages input picks s h hs
+
+theorem C45_partial_fused (stages : List Stage) (input : List Val) (picks : List Pick) (s : SinkSt)
+    (h : flowPipeline stages) (hs : ((mkNet true stages input).run picks).sink? = some s) :
+    SinkOK stages input s := C45_partial_all true stages input picks s h hs
+
+/-- without the typing assumption the untyped model refutes `C45_full`: an OrderedParallelMap that has a failing
+    int in flight when a list element arrives stops with the type error, which `sem` does not list -/
+theorem C45_full_untyped_witness :
+    (sem [.opmap 2 0 (some 5) "P0"] [.int 5, .list []]).2 = ["P0"] ∧
+    (((mkNet false [.opmap 2 0 (some 5) "P0"] [.int 5, .list []]).run
+        [.up 1, .up 0, .down 0, .down 0, .down 1]).sink?.map (·.termErr)) = some (some typeErr) := by decide
+
+/-- hence the statement over ALL (also ill-typed) inputs is false of the untyped model; the typed statement is `C45_holds` -/
+theorem C45_full_refuted_untyped : ¬ C45_full := by
+  intro h
+  obtain ⟨hsem, hrun⟩ := C45_full_untyped_witness
+  cases hs : ((mkNet false [.opmap 2 0 (some 5) "P0"] [.int 5, .list []]).run
+      [.up 1, .up 0, .down 0, .down 0, .down 1]).sink? with
+  | none => rw [hs] at hrun; simp at hrun
+  | some s =>
+    rw [hs] at hrun
+    simp only [Option.map_some, Option.some.injEq] at hrun
+    have := (h false _ _ _ s (by decide) hs).2.2.2.2 typeErr hrun
+    rw [hsem] at this
+    simp [typeErr] at this
 
 /-! non-vacuity -/
 example : flowPipeline [.map 1, .filter 2 0, .scan, .batch 3, .flatten, .buffer 3] := by
-  intro st hst; simp at hst; rcases hst with rfl | rfl | rfl | rfl | rfl | rfl <;> rfl
+  intro st hst; simp at hst; rcases hst with rfl | rfl | rfl | rfl | rfl | rfl <;> exact ⟨rfl, rfl⟩
+
+example : orderedPipeline [.map 1, .opmap 3 2 (some 7) "P1", .batch 2] = true ∧ Homog [.int 1, .int 7, .int 3] :=
+  ⟨by decide, Or.inl (by intro v hv; simp at hv; rcases hv with rfl | rfl | rfl <;> rfl)⟩
 
 end GoaktVerif.C45
